@@ -74,6 +74,14 @@ enum Op {
     /// a span of arbitrary level is created and dropped (the "for that span itself" clause)
     ProbeSpan { level: u8, target: u8, name: u8 },
 }
+#[derive(Clone, Debug, Serialize, Deserialize, PartialEq)]
+struct FDir {
+    /// index into FD_TARGETS, None = no target
+    target: Option<u8>,
+    /// distinct indices into FD_FIELDS (may be empty: a plain `target=level` directive)
+    fields: Vec<u8>,
+    level: u8,
+}
 #[derive(Clone, Debug, Serialize, Deserialize)]
 enum Case {
     Static { dirs: Vec<SDir> },
@@ -84,6 +92,10 @@ enum Case {
     RawDirective { dirs: String },
     /// bytes selecting grammar tokens (also the input format of the coverage-guided stage)
     Tokens { data: Vec<u8> },
+    /// static directives with field-name lists (`target[{a,b}]=level`), given to an EnvFilter one by
+    /// one through `Directive::from_str` + `add_directive`, judged on events that declare several
+    /// fields: among the matching directives the longest target, then the larger field list wins
+    FieldDirs { dirs: Vec<FDir> },
 }
 
 fn spell(level: u8, s: Spell) -> String {
@@ -866,6 +878,126 @@ pub fn fuzz_one(data: &[u8]) -> Outcome {
     }
 }
 
+// ---------------------------------------------------------------------------------------------
+// field-list directives on events that declare several fields
+
+const FD_TARGETS: [&str; 3] = ["app", "app::db", "ap"];
+const FD_FIELDS: [&str; 4] = ["a", "b", "c", "zz"];
+const FD_EVENT_TARGETS: [&str; 3] = ["app", "app::db", "other"];
+const FD_SETS: [&[&str]; 5] = [&["a", "b", "c"], &["a"], &["b", "c"], &["c", "a"], &[]];
+struct FCs(usize);
+impl tracing_core::callsite::Callsite for FCs {
+    fn set_interest(&self, _: tracing_core::Interest) {}
+    fn metadata(&self) -> &tracing_core::Metadata<'_> {
+        &fmetas()[self.0]
+    }
+}
+const FN: usize = 75;
+static FCS: [FCs; FN] = {
+    let mut a = [const { FCs(0) }; FN];
+    let mut i = 0;
+    while i < FN {
+        a[i] = FCs(i);
+        i += 1;
+    }
+    a
+};
+fn fmetas() -> &'static [tracing_core::Metadata<'static>] {
+    static M: std::sync::OnceLock<Vec<tracing_core::Metadata<'static>>> = std::sync::OnceLock::new();
+    M.get_or_init(|| {
+        let lv = [tracing_core::Level::ERROR, tracing_core::Level::WARN, tracing_core::Level::INFO, tracing_core::Level::DEBUG, tracing_core::Level::TRACE];
+        let mut v = Vec::new();
+        for (li, l) in lv.iter().enumerate() {
+            for (ti, t) in FD_EVENT_TARGETS.iter().enumerate() {
+                for (si, set) in FD_SETS.iter().enumerate() {
+                    let i = (li * 3 + ti) * 5 + si;
+                    v.push(tracing_core::Metadata::new("fev", t, *l, None, None, None, tracing_core::field::FieldSet::new(set, tracing_core::identify_callsite!(&FCS[i])), tracing_core::metadata::Kind::EVENT));
+                }
+            }
+        }
+        v
+    })
+}
+
+fn run_field_dirs(dirs: &[FDir]) -> Outcome {
+    let render = |d: &FDir| {
+        let t = d.target.map(|t| FD_TARGETS[t as usize % 3]).unwrap_or("");
+        let mut names: Vec<&str> = vec![];
+        for f in &d.fields {
+            let n = FD_FIELDS[*f as usize % 4];
+            if !names.contains(&n) {
+                names.push(n);
+            }
+        }
+        let lvl = NAMES[d.level as usize % 6];
+        if names.is_empty() {
+            (if t.is_empty() { lvl.to_string() } else { format!("{t}={lvl}") }, t, names)
+        } else {
+            (format!("{t}[{{{}}}]={lvl}", names.join(",")), t, names)
+        }
+    };
+    let mut e = EnvFilter::try_new("").unwrap();
+    let mut table: Vec<(String, &str, Vec<&str>, u8)> = Vec::new();
+    for d in dirs {
+        let (text, t, names) = render(d);
+        let parsed = match text.parse::<tracing_subscriber::filter::Directive>() {
+            Ok(p) => p,
+            Err(err) => return fail("Directive rejects a string of the documented grammar", format!("{text:?}: {err}")),
+        };
+        e = e.add_directive(parsed);
+        // a later directive with the same target and the same field list (in the same order)
+        // replaces the earlier one; the same names in another order are a different, equally
+        // specific directive
+        table.retain(|(_, tt, nn, _)| !(*tt == t && *nn == names));
+        table.push((text, t, names, d.level % 6));
+    }
+    let shown: Vec<&String> = table.iter().map(|t| &t.0).collect();
+    let filter_text = e.to_string();
+    let log: LeafLog = Default::default();
+    let leaf = RecLeaf::new(log.clone());
+    let c = Registry::default().with(leaf).with(e);
+    let hint = tracing_core::Collect::max_level_hint(&c).map(|h| h.into_level().map(|l| vp_rec::rank(&l)).unwrap_or(0));
+    let d = Dispatch::new(c);
+    let _g = tracing_core::dispatch::set_default(&d);
+    let (mut judged, mut multi) = (0, 0);
+    for (i, m) in fmetas().iter().enumerate() {
+        let rank = vp_rec::rank(m.level());
+        // reference: matching directives, most specific first
+        let matching: Vec<&(String, &str, Vec<&str>, u8)> = table.iter().filter(|(_, t, names, _)| m.target().starts_with(t) && names.iter().all(|n| m.fields().field(n).is_some())).collect();
+        let best = matching.iter().map(|x| (x.1.len() + if x.1.is_empty() { 0 } else { 1000 }, x.2.len())).max();
+        let want = match best {
+            None => false,
+            Some(b) => {
+                let tops: Vec<u8> = matching.iter().filter(|x| (x.1.len() + if x.1.is_empty() { 0 } else { 1000 }, x.2.len()) == b).map(|x| x.3).collect();
+                if tops.iter().any(|l| *l != tops[0]) {
+                    continue; // equally specific directives disagree: the order among them is unspecified
+                }
+                if matching.len() >= 2 {
+                    multi += 1;
+                }
+                tops[0] >= rank
+            }
+        };
+        judged += 1;
+        // what the macros do: hint, interest, enabled, dispatch
+        log.lock().unwrap().clear();
+        let gate = hint.map(|h| rank <= h).unwrap_or(true) && {
+            let x = d.register_callsite(&fmetas()[i]);
+            !x.is_never() && (x.is_always() || d.enabled(m))
+        };
+        if gate {
+            let vs = m.fields().value_set(&[]);
+            d.event(&Event::new(m, &vs));
+        }
+        let got = log.lock().unwrap().iter().any(|c| c.kind == LKind::Event);
+        if got != want {
+            return fail("field-list directives: the most specific matching directive (longest target, then more fields) does not decide", format!("directives {shown:?} (the filter prints as {filter_text:?}): event level {} target {:?} fields {:?}: delivered {got}, reference says {want}", m.level(), m.target(), m.fields().iter().map(|f| f.name()).collect::<Vec<_>>()));
+        }
+    }
+    let _ = judged;
+    Outcome::pass(multi > 0, vec!["field_list_directives".into()])
+}
+
 struct C11;
 impl Property for C11 {
     type Case = Case;
@@ -912,7 +1044,9 @@ impl Property for C11 {
                 Case::Dynamic { sdirs, ddirs, as_filter, ops }
             });
         let tokens = proptest::collection::vec(any::<u8>(), 1..16).prop_map(|data| Case::Tokens { data });
-        prop_oneof![2 => st, 2 => dy, 1 => nested, 1 => tokens].boxed()
+        let fdir = (proptest::option::weighted(0.8, 0u8..3), proptest::collection::vec(0u8..4, 0..4), 0u8..6).prop_map(|(target, fields, level)| FDir { target, fields, level });
+        let fdirs = proptest::collection::vec(fdir, 1..5).prop_map(|dirs| Case::FieldDirs { dirs });
+        prop_oneof![2 => st, 2 => dy, 1 => nested, 1 => tokens, 1 => fdirs].boxed()
     }
     fn run(&self, case: &Case) -> Outcome {
         match case {
@@ -921,6 +1055,7 @@ impl Property for C11 {
             Case::Raw { dirs } => run_raw(dirs),
             Case::RawDirective { dirs } => run_raw_directive(dirs),
             Case::Tokens { data } => fuzz_one(data),
+            Case::FieldDirs { dirs } => run_field_dirs(dirs),
         }
     }
     fn rule(&self) -> String {
